@@ -9,6 +9,9 @@ package nebula
 //     denied globally, denied for the peer's range, marked bad, more than ten), a second source, a block / delete, a third
 //     source.  After every event the destinations are observed: CopyAddrs / ForEach / keep-alive punches to all remotes
 //     (handshake, probe), the tunnel's current remote (data), the datagrams written by the punch scheduler (punch).
+//     Encoding: the IPv4 classes are offered once more spelled as IPv4-mapped entries of V6AddrPorts (ids > 100, lhUnder);
+//     an address is judged by what it is, destinations are compared after unmapping (at the socket ::ffff:a.b.c.d IS
+//     a.b.c.d).  A second node configuration (in.sm) spells static_host_map literals as IPv4-mapped addresses.
 //  T: seeded random event sequences of length 12, checked against the statement only (classes computed by the harness
 //     from the node's configuration with its own prefix arithmetic).
 
@@ -37,6 +40,7 @@ type c36Step struct {
 type c36Vec struct {
 	In struct {
 		Am  bool                `json:"am"`
+		Sm  bool                `json:"sm"` // static_host_map with IPv4-mapped literals
 		Evs [][]json.RawMessage `json:"evs"`
 	} `json:"in"`
 	Exp []c36Step `json:"exp"`
@@ -44,6 +48,7 @@ type c36Vec struct {
 
 var c36Peers = []string{"P1", "P2", "P3"}
 var c36Statics = map[string][]int{"L1": {31}, "L2": {32}, "P2": {33, 4, 6, 7, 3, 44}, "P3": {34, 7, 5, 8, 44, 46}}
+var c36StaticsM = map[string][]int{"L1": {31}, "L2": {32}, "P2": {33, 4, 6, 7, 3, 44, 140, 141, 142}, "P3": {34, 7, 5, 8, 44, 46, 139, 143}}
 
 type c36World struct {
 	t       *testing.T
@@ -52,12 +57,36 @@ type c36World struct {
 	hi      map[string]*HostInfo
 	blocked map[string]map[int]bool
 	pref    []netip.Prefix
+	statics map[string][]int
+	// per peer: addresses (unmapped ids) that some source offered in the plain / in the IPv4-mapped spelling
+	plain, mapped map[string]map[int]bool
 }
 
-func c36NewWorld(t *testing.T, am bool) *c36World {
-	n := lhNewNode(t, lhNodeCfg{Am: am, Lhs: []string{"L1", "L2"}, Statics: c36Statics, C36: true})
-	return &c36World{t: t, n: n, f: &Interface{lightHouse: n.lh, l: n.l}, hi: map[string]*HostInfo{}, blocked: map[string]map[int]bool{},
-		pref: n.hm.GetPreferredRanges()}
+func c36NewWorld(t *testing.T, am bool, sm bool) *c36World {
+	st := c36Statics
+	if sm {
+		st = c36StaticsM
+	}
+	n := lhNewNode(t, lhNodeCfg{Am: am, Lhs: []string{"L1", "L2"}, Statics: st, C36: true})
+	w := &c36World{t: t, n: n, f: &Interface{lightHouse: n.lh, l: n.l}, hi: map[string]*HostInfo{}, blocked: map[string]map[int]bool{},
+		pref: n.hm.GetPreferredRanges(), statics: st, plain: map[string]map[int]bool{}, mapped: map[string]map[int]bool{}}
+	for p, ids := range st {
+		w.offered(p, ids)
+	}
+	return w
+}
+
+func (w *c36World) offered(p string, ids []int) {
+	for _, x := range ids {
+		m := w.plain
+		if x > lhMappedBase {
+			m, x = w.mapped, x-lhMappedBase
+		}
+		if m[p] == nil {
+			m[p] = map[int]bool{}
+		}
+		m[p][x] = true
+	}
 }
 
 func (w *c36World) hostinfo(p string) *HostInfo {
@@ -88,9 +117,11 @@ func (w *c36World) do(ev []json.RawMessage) {
 	kind := vStr(ev[0])
 	switch kind {
 	case "reply", "punch":
+		w.offered(vStr(ev[2]), vInts(ev[3]))
 		v4, v6 := c36Split(vInts(ev[3]))
 		n.handle(&lhMsg{From: []string{vStr(ev[1])}, T: map[string]string{"reply": "QueryReply", "punch": "Punch"}[kind], Cl: vStr(ev[2]), Enc: 2, V4: v4, V6: v6})
 	case "update":
+		w.offered(vStr(ev[1]), vInts(ev[2]))
 		v4, v6 := c36Split(vInts(ev[2]))
 		n.handle(&lhMsg{From: []string{vStr(ev[1])}, T: "Update", Cl: vStr(ev[1]), Enc: 2, V4: v4, V6: v6})
 	case "learn":
@@ -98,15 +129,18 @@ func (w *c36World) do(ev []json.RawMessage) {
 		// remote allow list over all of the peer's addresses, then HostInfo.SetRemote
 		h := w.hostinfo(vStr(ev[1]))
 		x := lhUnder(vInt(ev[2]))
+		w.offered(vStr(ev[1]), []int{vInt(ev[2])})
 		if n.lh.GetRemoteAllowList().AllowAll(h.vpnAddrs, x.Addr()) {
 			h.SetRemote(x)
 		}
 	case "roam":
+		w.offered(vStr(ev[1]), []int{vInt(ev[2])})
 		w.f.handleHostRoaming(w.hostinfo(vStr(ev[1])), ViaSender{UdpAddr: lhUnder(vInt(ev[2]))})
 	case "calc":
 		n.lh.addCalculatedRemotes(lhOverlay[vStr(ev[1])])
 	case "dns":
 		rl := n.lh.QueryCache([]netip.Addr{lhOverlay[vStr(ev[1])]})
+		w.offered(vStr(ev[1]), vInts(ev[2]))
 		m := map[netip.AddrPort]struct{}{}
 		for _, x := range vInts(ev[2]) {
 			m[lhUnder(x)] = struct{}{}
@@ -133,13 +167,15 @@ func (w *c36World) do(ev []json.RawMessage) {
 			delete(w.hi, p) // the tunnel is gone; a new one starts from a fresh QueryCache
 			delete(w.blocked, p)
 		}
-	case "none":
+	case "none", "static": // "static": the state after start-up is observed
 	default:
 		w.t.Fatalf("verif: unknown event %s", kind)
 	}
 }
 
 type c36Obs struct {
+	// destinations (per peer; "" = the punch socket) that were observed in the IPv4-mapped spelling
+	spelled   map[string]map[int]bool
 	punches   []int
 	dest      map[string]c36Dest
 	keepalive map[string][]int
@@ -162,35 +198,45 @@ func c36SortedSet(ids []int) []int {
 func (w *c36World) observe() c36Obs {
 	n := w.n
 	e := n.settle()
-	o := c36Obs{punches: e.Punches, dest: map[string]c36Dest{}, keepalive: map[string][]int{}, foreach: map[string][]int{}}
+	o := c36Obs{punches: e.Punches, dest: map[string]c36Dest{}, keepalive: map[string][]int{}, foreach: map[string][]int{},
+		spelled: map[string]map[int]bool{"": e.PunchMapped}}
 	for _, p := range c36Peers {
 		d := c36Dest{Hs: []int{}, Probe: []int{}}
+		sp := map[int]bool{}
+		o.spelled[p] = sp
+		back := func(a netip.AddrPort) int {
+			id := lhUnderBack(a)
+			if a.Addr().Is4In6() {
+				sp[id] = true
+			}
+			return id
+		}
 		n.lh.RLock()
 		rl := n.lh.addrMap[lhOverlay[p]]
 		n.lh.RUnlock()
 		if rl != nil {
 			for _, a := range rl.CopyAddrs(w.pref) {
-				d.Hs = append(d.Hs, lhUnderBack(a))
+				d.Hs = append(d.Hs, back(a))
 			}
 			fe := []int{}
 			rl.ForEach(w.pref, func(a netip.AddrPort, preferred bool) {
-				fe = append(fe, lhUnderBack(a))
+				fe = append(fe, back(a))
 				if preferred {
-					d.Probe = append(d.Probe, lhUnderBack(a))
+					d.Probe = append(d.Probe, back(a))
 				}
 			})
 			o.foreach[p] = c36SortedSet(fe)
 		}
 		if h, ok := w.hi[p]; ok {
 			if r := h.GetRemote(); r.IsValid() {
-				d.Data = lhUnderBack(r)
+				d.Data = back(r)
 			}
 			// keep-alive punches go to every remote of the tunnel (punchy.target_all_remotes)
 			n.punchy.SendPunch(h)
 			n.conn.mu.Lock()
 			ka := []int{}
 			for _, a := range n.conn.writes {
-				ka = append(ka, lhUnderBack(a))
+				ka = append(ka, back(a))
 			}
 			n.conn.writes = nil
 			n.conn.mu.Unlock()
@@ -239,8 +285,18 @@ func (w *c36World) judge(res *vResult, o c36Obs, evKind string, evPeer string, d
 				}
 			}
 			if cls != "ok" {
+				// the spelling the address travelled in names the input class
+				how := ""
+				sock := p
+				if dest == "punch" {
+					sock = ""
+				}
+				if x > 0 && (o.spelled[sock][x] || (w.mapped[p][x] && !w.plain[p][x])) {
+					cls += "-v4mapped"
+					how = ", offered spelled as the IPv4-mapped IPv6 address ::ffff:" + lhUnder(x).Addr().String()
+				}
 				res.Mismatch(fmt.Sprintf("dest:%s:%s:via-%s", dest, cls, evKind),
-					fmt.Sprintf("underlay address %s (%s for %s) is used as a %s destination after a %q event", lhUnder(max(x, 1)), cls, p, dest, evKind), detail)
+					fmt.Sprintf("underlay address %s (%s for %s%s) is used as a %s destination after a %q event", lhUnder(max(x, 1)), cls, p, how, dest, evKind), detail)
 				bad = true
 			}
 		}
@@ -270,7 +326,10 @@ func (w *c36World) judge(res *vResult, o c36Obs, evKind string, evPeer string, d
 	}
 	// static hosts keep their (usable) configured addresses
 	for _, p := range c36Peers {
-		for _, x := range c36Statics[p] {
+		for _, x := range w.statics[p] {
+			if x > lhMappedBase {
+				x -= lhMappedBase // the configured address is the one the literal spells
+			}
 			if lhClass(lhOverlay[p], lhUnder(x).Addr()) != "ok" || w.blocked[p][x] {
 				continue
 			}
@@ -287,11 +346,31 @@ func (w *c36World) judge(res *vResult, o c36Obs, evKind string, evPeer string, d
 	return bad
 }
 
+// c36HitClasses counts the (source, class) pairs offered in the IPv4-mapped spelling.
+func c36HitClasses(res *vResult, ev []json.RawMessage) {
+	kind := vStr(ev[0])
+	var p string
+	var ids []int
+	switch kind {
+	case "reply", "punch":
+		p, ids = vStr(ev[2]), vInts(ev[3])
+	case "update":
+		p, ids = vStr(ev[1]), vInts(ev[2])
+	default:
+		return
+	}
+	for _, x := range ids {
+		if x > lhMappedBase {
+			res.Hit("mapped:" + kind + ":" + lhClass(lhOverlay[p], lhUnder(x).Addr()))
+		}
+	}
+}
+
 func c36EvPeer(ev []json.RawMessage) string {
 	switch vStr(ev[0]) {
 	case "reply", "punch":
 		return vStr(ev[2])
-	case "none":
+	case "none", "static":
 		return ""
 	}
 	return vStr(ev[1])
@@ -315,15 +394,19 @@ func TestVerif_C36(t *testing.T) {
 			res.Sample(json.RawMessage(append([]byte(nil), line...)))
 		}
 		lhBubble(t, func(t *testing.T) {
-			w := c36NewWorld(t, v.In.Am)
+			w := c36NewWorld(t, v.In.Am, v.In.Sm)
 			defer w.n.close()
+			if v.In.Sm {
+				res.Hit("static:v4mapped-literals")
+			}
 			for si, ev := range v.In.Evs {
 				kind := vStr(ev[0])
 				w.do(ev)
 				o := w.observe()
 				res.Hit("ev:" + kind)
 				view, _ := w.n.view()
-				detail := map[string]any{"am_lighthouse": v.In.Am, "events": v.In.Evs[:si+1], "step": si, "observed_destinations": o.dest,
+				c36HitClasses(res, ev)
+				detail := map[string]any{"am_lighthouse": v.In.Am, "static_host_map_v4mapped_literals": v.In.Sm, "events": v.In.Evs[:si+1], "step": si, "observed_destinations": o.dest,
 					"observed_punches": o.punches, "observed_keepalive_punches": o.keepalive, "specified_destinations": v.Exp[si].Dest,
 					"specified_punches": v.Exp[si].Punches}
 				if w.judge(res, o, kind, c36EvPeer(ev), detail) {
@@ -374,10 +457,12 @@ func TestVerif_C36(t *testing.T) {
 	}
 	srcs := []string{"reply", "reply", "update", "punch", "learn", "roam", "dns", "calc", "block", "delete"}
 	pool := []int{1, 2, 3, 4, 5, 6, 7, 8, 9, 40, 41, 42, 43, 44, 44, 45, 46, 7, 11, 12, 13, 14, 15, 16, 17, 18, 19, 20, 21, 22}
+	// IPv4 addresses of every class spelled as IPv4-mapped entries of V6AddrPorts (lighthouse messages only)
+	mpool := []int{101, 102, 104, 106, 107, 109, 140, 141, 142, 143, 145}
 	for i := 0; i < traces; i++ {
 		am := rnd.Intn(2) == 0
 		lhBubble(t, func(t *testing.T) {
-			w := c36NewWorld(t, am)
+			w := c36NewWorld(t, am, false)
 			defer w.n.close()
 			var evs [][]json.RawMessage
 			for s := 0; s < 12; s++ {
@@ -388,6 +473,13 @@ func TestVerif_C36(t *testing.T) {
 					list[k] = pool[rnd.Intn(len(pool))]
 				}
 				one := pool[rnd.Intn(len(pool))]
+				if kind == "reply" || kind == "punch" || kind == "update" {
+					for k := range list {
+						if rnd.Intn(4) == 0 {
+							list[k] = mpool[rnd.Intn(len(mpool))]
+						}
+					}
+				}
 				var ev []any
 				switch kind {
 				case "reply", "punch":
